@@ -672,11 +672,14 @@ int janet_gcunrootall(Janet root) {
     Janet *vtop = janet_vm.roots + janet_vm.root_count;
     int ret = 0;
     /* Search from top to bottom as access is most likely LIFO */
-    for (Janet *v = janet_vm.roots; v < vtop; v++) {
+    for (Janet *v = janet_vm.roots; v < vtop;) {
         if (janet_gc_idequals(root, *v)) {
+            /* The root swapped in from the top has not been looked at yet: stay on this slot */
             *v = janet_vm.roots[--janet_vm.root_count];
             vtop--;
             ret = 1;
+        } else {
+            v++;
         }
     }
     return ret;
